@@ -86,3 +86,22 @@ pub fn registry_json(ctx: &Context) -> Value {
         "category_names": category_names, "datepatterns": r.datepatterns.len(),
     })
 }
+
+/// The definitions as WRITTEN in a source text (parsed with gnu_units::parse_str): what C08 compares the
+/// loaded registry against. Prefix definitions never reach `Registry::definitions`, and a unit's recorded
+/// definition may have been overwritten: the source is the reference.
+pub fn source_defs_json(text_src: &str) -> Value {
+    use rink_core::ast::Def;
+    let defs = rink_core::loader::gnu_units::parse_str(text_src);
+    let list: Vec<Value> = defs
+        .defs
+        .iter()
+        .filter_map(|d| match &*d.def {
+            Def::Prefix { expr, is_long } => Some(json!({"name": text(&d.name), "s": d.name, "kind": "prefix", "long": is_long, "def": expr_json(&expr.0)})),
+            Def::Unit { expr } => Some(json!({"name": text(&d.name), "s": d.name, "kind": "unit", "def": expr_json(&expr.0)})),
+            Def::Quantity { expr } => Some(json!({"name": text(&d.name), "s": d.name, "kind": "quantity", "def": expr_json(&expr.0)})),
+            _ => None,
+        })
+        .collect();
+    Value::Array(list)
+}
